@@ -7,6 +7,7 @@ INVARIANT TypeOK
 INVARIANT ResultIsRequested
 INVARIANT NeverGarbage
 INVARIANT RejectIffNotCovered
+INVARIANT OtherL0Rejected
 INVARIANT BoundedKdf
 INVARIANT CoverIsDerivable
 PROPERTY StepsAreEdges
